@@ -26,9 +26,9 @@ META = dict(
     functions=['adsg_core.optimization.assign_enc.matrix._validate_matrix (py_func)',
                'adsg_core.optimization.assign_enc.matrix._check_conns (py_func)',
                'adsg_core.optimization.assign_enc.matrix.AggregateAssignmentMatrixGenerator.validate_matrix'],
-    bounds=dict(connectors='<= 3x3', degree_values='<= 3 in lists, minima <= 2', matrix_entries='any non-negative integer (unbounded)',
+    bounds=dict(connectors='<= 3x3, plus 1x4, 4x1, 2x4 and 4x2', degree_values='<= 3 in lists, minima <= 2', matrix_entries='any non-negative integer (unbounded)',
                 path_cap=20000, query_timeout_s=20),
-    outside=['negative matrix entries', 'more than 3 connectors per side',
+    outside=['negative matrix entries', 'more than 3 connectors on both sides, more than 4 on one side',
              'histories other than: counting before listing, a filtered iteration or an abandoned iteration before a full listing, '
              'two different settings (one of five one-step variants) enumerated one after the other in one cache (cache_pair instances, concrete)',
              'the enumerator and counter themselves run concretely: their output is compared with the specification by '
@@ -45,7 +45,7 @@ INSTANCE_CAP_S = 240
 
 def instances(tier, seed):
     out = []
-    spool = pool.pool(tier, seed, with_max=True)
+    spool = pool.pool(tier, seed, with_max=True, wide=True)
     for k, s in enumerate(spool):
         out.append(dict(label=f'{k:05d} {s.get("name") or ""} {pool.settings_label(s)}', s=s))
     # two *different* settings enumerated one after the other in the same on-disk cache
